@@ -492,6 +492,14 @@ func cmdCheck(args []string) int {
 	// free-running race-detector pass (sampled)
 	if p.RacePkg != "" {
 		rv, rounds, rerr := racePass(p, wd, *tier)
+		if rerr != nil && nviol > 0 {
+			// the deciding step already has violations: they must be reported,
+			// whatever happened to the supplementary pass (a change that leaks a
+			// lock makes the free-running bodies hang)
+			fmt.Fprintf(os.Stderr, "race pass did not complete (%v); the model-checked part has violations, which are reported\n", rerr)
+			c.Notes = append(c.Notes, fmt.Sprintf("race pass did not complete: %v", rerr))
+			rerr = nil
+		}
 		if rerr != nil {
 			fmt.Fprintf(os.Stderr, "MACHINERY-ERROR property=%s: race pass: %v\n", p.ID, rerr)
 			return 2
@@ -786,7 +794,14 @@ func racePass(p *prop, wd, tier string) ([]violation, int64, error) {
 	if err := genHarnessMod(); err != nil {
 		return nil, 0, err
 	}
-	cmd := exec.Command(goBin, "test", "-race", "-count=1", "-vet=off", "-v", "-run", "^TestRaceBodies$", "./"+p.RacePkg)
+	// free-running bodies can hang for good on a leaked plain mutex (a bubble
+	// does not see that as a deadlock): an explicit deadline instead of go
+	// test's 10 minutes
+	deadline := "150s"
+	if tier == "thorough" {
+		deadline = "600s"
+	}
+	cmd := exec.Command(goBin, "test", "-race", "-count=1", "-vet=off", "-v", "-timeout", deadline, "-run", "^TestRaceBodies$", "./"+p.RacePkg)
 	cmd.Dir = filepath.Join(verifDir, "harness")
 	cmd.Env = append(goEnv(), "VERIF_TIER="+tier, "VERIF_RACE_BODIES="+p.RaceBodies, "GOLOG_LOG_LEVEL=fatal", "GORACE=halt_on_error=0")
 	out, runErr := cmd.CombinedOutput()
